@@ -88,6 +88,26 @@ class TimeDomain(ZoneDomain):
                 return n
         return None
 
+    def diff_of(self, s: Zone, var: str):
+        """(X, A) when `var` is known to be exactly X - A: recorded for var itself or for a variable
+        the zone knows to be equal to it (a local copy)"""
+        d = s.aux.get(f'diff:{var}')
+        if d is not None:
+            return d
+        s.close()
+        for k, d in s.aux.items():
+            if k.startswith('diff:'):
+                v = k[5:]
+                if s.upper_diff(v, var) <= 0 and s.upper_diff(var, v) <= 0:
+                    return d
+        return None
+
+    def same(self, s: Zone, a: str, b: str) -> bool:
+        if a == b:
+            return True
+        s.close()
+        return s.upper_diff(a, b) <= 0 and s.upper_diff(b, a) <= 0
+
     def _int_tighten(self, s: Zone) -> None:
         s.close()
         # d == X - A exactly: the bounds of d are bounds of the difference and vice versa
@@ -235,8 +255,8 @@ class TimeDomain(ZoneDomain):
             for inst, dur in ((a, b), (b, a)):
                 if inst.base is None or dur.base is None or inst.lo != 0 or inst.hi != 0:
                     continue
-                df = s.aux.get(f'diff:{dur.base}')
-                if df is not None and df[1] == inst.base:
+                df = self.diff_of(s, dur.base)
+                if df is not None and self.same(s, df[1], inst.base):
                     dlo, dhi = self.interval(dur, s)
                     extra = [(inst.base, dlo, dhi)]
                     for var, lo, hi in dur.extra:
